@@ -1,5 +1,5 @@
 package main
 
-func cmdCheck(args []string) int  { return 2 }
-func cmdSweep(args []string)      {}
-func cmdReplay(args []string) int { return 2 }
+func runExtra(name string, cfg *PropConfig, tier string, w *World) *FuncReport { return nil }
+
+func tryReplay(w *World, rf *replayFile, o ObResult) bool { return false }
